@@ -288,7 +288,7 @@ def run(ctx):
         mon.install(probe)
         for i, rnd in ctx.cases("engines", nengines):
             general = i % 3 != 2
-            spec = E.gen_engine(rnd, activations=("General",) if general else tuple(c08.METHODS), d=rnd.choice([1, 3, 3]), allow_output_antecedent=general)
+            spec = E.gen_engine(rnd, activations=("General",) if general else tuple(c08.METHODS), d=rnd.choice([1, 3, 3]), allow_output_antecedent=general, free_weights=True, share_defuzzifier=True)
             try:
                 engine = E.build(fl, spec)
             except Exception as ex:
